@@ -277,7 +277,7 @@ func c34KV(toks []string, k string) (string, bool) {
 }
 
 var c34Kinds = map[string]string{"nil": "none", "nobody": "none", "bytesreader": "rew", "buffer": "rew", "strings": "rew",
-	"file": "plain", "onlyreader": "plain", "limit": "plain", "seeker": "plain"}
+	"file": "plain", "onlyreader": "plain", "limit": "plain", "seeker": "plain", "section": "plain"}
 
 func c34Codes(tok string) ([]int, bool) {
 	var out []int
@@ -345,6 +345,16 @@ func c34Exec(t *verifh.T, c verifh.Case, tmp string) bool {
 	tlsT, _ := c34KV(c.Cfg, "tls")
 	fbT, _ := c34KV(c.Cfg, "fb")
 	kaT, _ := c34KV(c.Cfg, "ka")
+	// skip=k: the reader handed to Send holds k more bytes in front of the body and was advanced
+	// past them by the caller; the request body is what is unread when Send is called
+	skip := 0
+	if sk, ok := c34KV(c.Cfg, "skip"); ok {
+		n, err := strconv.Atoi(sk)
+		if err != nil || n < 0 || n > 1<<20 {
+			return false
+		}
+		skip = n
+	}
 	kind, okK := c34Kinds[impl]
 	path, err1 := verifh.Unstr(pathT)
 	src := bodyT
@@ -358,8 +368,23 @@ func c34Exec(t *verifh.T, c verifh.Case, tmp string) bool {
 	okF := func(s string) bool { return s == "0" || s == "1" }
 	if !okK || err1 != nil || !okB || !ok1 || !ok2 || !okM || !strings.HasPrefix(path, "/") ||
 		(kind == "none" && len(body) != 0) || (boT == "none" && len(extra) != 0) || !okF(tlsT) || !okF(fbT) || !okF(kaT) ||
-		(fbT == "1" && tlsT == "0") {
+		(fbT == "1" && tlsT == "0") || (skip > 0 && kind == "none") {
 		return false
+	}
+	whole := body
+	if skip > 0 {
+		whole = make([]byte, 0, skip+len(body))
+		for i := 0; i < skip; i++ {
+			whole = append(whole, "SKIPPED-PREFIX-"[i%15])
+		}
+		whole = append(whole, body...)
+	}
+	adv := func(r io.Reader) {
+		if skip > 0 {
+			if _, err := io.CopyN(io.Discard, r, int64(skip)); err != nil {
+				panic(err)
+			}
+		}
 	}
 	headers := map[string]string{}
 	for _, kv := range verifh.Unlist(hdrT) {
@@ -450,14 +475,20 @@ func c34Exec(t *verifh.T, c verifh.Case, tmp string) bool {
 	case "nobody":
 		rd = http.NoBody
 	case "bytesreader":
-		rd = bytes.NewReader(body)
+		r := bytes.NewReader(whole)
+		adv(r)
+		rd = r
 	case "buffer":
-		rd = bytes.NewBuffer(append([]byte{}, body...))
+		r := bytes.NewBuffer(append([]byte{}, whole...))
+		adv(r)
+		rd = r
 	case "strings":
-		rd = strings.NewReader(string(body))
+		r := strings.NewReader(string(whole))
+		adv(r)
+		rd = r
 	case "file":
 		p := filepath.Join(tmp, "body")
-		if err := os.WriteFile(p, body, 0644); err != nil {
+		if err := os.WriteFile(p, whole, 0644); err != nil {
 			panic(err)
 		}
 		f, err := os.Open(p)
@@ -465,13 +496,26 @@ func c34Exec(t *verifh.T, c verifh.Case, tmp string) bool {
 			panic(err)
 		}
 		defer f.Close()
+		if _, err := f.Seek(int64(skip), io.SeekStart); err != nil {
+			panic(err)
+		}
 		rd = f
 	case "onlyreader":
-		rd = c34OnlyReader{bytes.NewReader(body)}
+		r := bytes.NewReader(whole)
+		adv(r)
+		rd = c34OnlyReader{r}
 	case "limit":
-		rd = io.LimitReader(bytes.NewReader(body), int64(len(body))+7)
+		r := bytes.NewReader(whole)
+		adv(r)
+		rd = io.LimitReader(r, int64(len(body))+7)
 	case "seeker":
-		rd = c34Seeker{bytes.NewReader(body)}
+		r := bytes.NewReader(whole)
+		adv(r)
+		rd = c34Seeker{r}
+	case "section":
+		r := io.NewSectionReader(bytes.NewReader(whole), 0, int64(len(whole)))
+		adv(r)
+		rd = r
 	}
 	if rd != nil {
 		opts = append(opts, httputil.SendBody(rd))
@@ -490,7 +534,8 @@ func c34Exec(t *verifh.T, c verifh.Case, tmp string) bool {
 	if hasGen {
 		cfg = append(cfg, "gen="+genT)
 	}
-	cfg = append(cfg, "body="+c34BodyTok(body), "accepted="+accT, "extra="+extraT, "bo="+boT, "tls="+tlsT, "fb="+fbT, "ka="+kaT)
+	cfg = append(cfg, "body="+c34BodyTok(body), "accepted="+accT, "extra="+extraT, "bo="+boT, "tls="+tlsT, "fb="+fbT, "ka="+kaT,
+		"skip="+strconv.Itoa(skip))
 	t.Cfg(cfg...)
 	t.Rec("script", []string{verifh.List(script)}, nil)
 	if !doSend {
@@ -556,7 +601,10 @@ func c34Exec(t *verifh.T, c verifh.Case, tmp string) bool {
 	return true
 }
 
-type c34Opt struct{ tls, fb, ka string }
+type c34Opt struct {
+	tls, fb, ka string
+	skip        int
+}
 
 func c34Case(method, path string, hdr []string, impl string, body string, accepted, extra, bo string, o c34Opt, script []string) verifh.Case {
 	cfg := []string{"method=" + method, "path=" + verifh.Str(path), "hdr=" + verifh.List(hdr), "kind=" + c34Kinds[impl], "impl=" + impl}
@@ -565,11 +613,11 @@ func c34Case(method, path string, hdr []string, impl string, body string, accept
 	} else {
 		cfg = append(cfg, "body="+body)
 	}
-	cfg = append(cfg, "accepted="+accepted, "extra="+extra, "bo="+bo, "tls="+o.tls, "fb="+o.fb, "ka="+o.ka)
+	cfg = append(cfg, "accepted="+accepted, "extra="+extra, "bo="+bo, "tls="+o.tls, "fb="+o.fb, "ka="+o.ka, "skip="+strconv.Itoa(o.skip))
 	return verifh.Case{Cfg: cfg, Ops: [][]string{{"script", verifh.List(script)}, {"op", "send"}}}
 }
 
-var c34HTTP = c34Opt{"0", "0", "0"}
+var c34HTTP = c34Opt{tls: "0", fb: "0", ka: "0"}
 
 func TestVerif_C34(t *testing.T) {
 	tmp := t.TempDir()
@@ -657,7 +705,7 @@ func TestVerif_C34(t *testing.T) {
 		}
 	}
 	rec2(nil, verifh.Scale(2, 3))
-	for _, o := range []c34Opt{c34HTTP, {"1", "0", "0"}, {"1", "1", "0"}} {
+	for _, o := range []c34Opt{c34HTTP, {tls: "1", fb: "0", ka: "0"}, {tls: "1", fb: "1", ka: "0"}} {
 		for _, sc := range scripts2 {
 			for _, impl := range []string{"nil", "bytesreader", "buffer", "onlyreader", "file"} {
 				for _, bo := range []string{"none", "1", "2"} {
@@ -679,7 +727,7 @@ func TestVerif_C34(t *testing.T) {
 	for i, n := range sizes {
 		for _, impl := range []string{"bytesreader", "strings", "onlyreader", "file"} {
 			for _, sc := range [][]string{{"s503", "s200"}, {"net", "s200"}, {"n5000", "s503", "s200"}} {
-				for _, o := range []c34Opt{c34HTTP, {"1", "1", "0"}} {
+				for _, o := range []c34Opt{c34HTTP, {tls: "1", fb: "1", ka: "0"}} {
 					if o.tls == "1" && n > 1<<20+1 {
 						continue
 					}
@@ -692,10 +740,26 @@ func TestVerif_C34(t *testing.T) {
 			}
 		}
 	}
+	// (a3') readers the caller had already advanced before Send: the request body is what is unread
+	// at that moment, on every attempt (every body implementation, retrying scripts, all modes)
+	for _, impl := range []string{"bytesreader", "buffer", "strings", "section", "seeker", "file", "onlyreader", "limit"} {
+		for _, sk := range []int{1, 7, 5000} {
+			for _, sc := range [][]string{{"s503", "s200"}, {"net", "s200"}, {"s200"}, {"n3", "s503", "s200"}, {"refuse", "s200"}} {
+				for _, o := range []c34Opt{c34HTTP, {tls: "1", fb: "1", ka: "0"}} {
+					o.skip = sk
+					c34Exec(tr, c34Case("PUT", "/adv", nil, impl, body, "200", "-", "2", o, sc), tmp)
+					tr.Count("pre_advanced_body_cases", 1)
+					if stop() {
+						return
+					}
+				}
+			}
+		}
+	}
 	// (a4) keep-alive on both sides (the production transport): status answers only
 	for _, impl := range []string{"nil", "bytesreader", "onlyreader"} {
 		for _, sc := range [][]string{{"s503", "s200"}, {"s503", "s502", "s429", "s200"}, {"s200"}, {"s404"}, {"s503", "s503", "s503", "s503"}} {
-			for _, o := range []c34Opt{{"0", "0", "1"}, {"1", "0", "1"}} {
+			for _, o := range []c34Opt{{tls: "0", fb: "0", ka: "1"}, {tls: "1", fb: "0", ka: "1"}} {
 				full := append(append([]string{}, sc...), "s500", "s500", "s500", "s500", "s500", "s500", "s500", "s500")
 				c34Exec(tr, c34Case("POST", "/ka", []string{"X-V-B:two"}, impl, bodyFor(impl, body), "200", "-", "3", o, full), tmp)
 				tr.Count("keepalive_cases", 1)
@@ -716,7 +780,7 @@ func TestVerif_C34(t *testing.T) {
 	}
 	// (b) seeded random: methods, URIs, headers, body sizes, longer scripts, odd codes, all modes
 	r := verifh.NewRand(verifh.Seed(), "c34")
-	allImpls := []string{"nil", "nobody", "bytesreader", "buffer", "strings", "file", "onlyreader", "limit", "seeker"}
+	allImpls := []string{"nil", "nobody", "bytesreader", "buffer", "strings", "file", "onlyreader", "limit", "seeker", "section"}
 	codes := []int{200, 200, 201, 202, 204, 400, 403, 404, 409, 429, 499, 500, 502, 503, 503, 504, 599}
 	for i := 0; i < verifh.Scale(1200, 40000); i++ {
 		impl := allImpls[r.Intn(len(allImpls))]
@@ -766,9 +830,9 @@ func TestVerif_C34(t *testing.T) {
 		o := c34HTTP
 		switch r.Intn(6) {
 		case 0:
-			o = c34Opt{"1", "0", "0"}
+			o = c34Opt{tls: "1", fb: "0", ka: "0"}
 		case 1, 2:
-			o = c34Opt{"1", "1", "0"}
+			o = c34Opt{tls: "1", fb: "1", ka: "0"}
 		}
 		var sc []string
 		for j, n := 0, r.Intn(7); j < n; j++ {
@@ -784,6 +848,9 @@ func TestVerif_C34(t *testing.T) {
 			default:
 				sc = append(sc, "s"+strconv.Itoa(codes[r.Intn(len(codes))]))
 			}
+		}
+		if c34Kinds[impl] != "none" && r.Chance(1, 4) {
+			o.skip = 1 + r.Intn(40)
 		}
 		c := c34Case(method, path, hdr, impl, b, accepted, extra, bo, o, sc)
 		if i < 3 {
